@@ -21,6 +21,12 @@ pub fn dispatch(check: &str, lo: i64, hi: i64, seed: u64, thorough: bool, out: &
     "c01_calendar_years" => c01_calendar_years(lo, hi, out),
     "l_new" => l_new(lo, hi, out),
     "l_td" => l_td(lo, hi, out),
+    "c11_linear" => c11_linear(lo, hi, seed, out),
+    "c12_step" => c12_step(lo, hi, seed, out),
+    "c12_roundtrip" => c12_roundtrip(lo, hi, seed, out),
+    "c12_fraction" => c12_fraction(lo, hi, seed, out),
+    "c13_solar" => c13_solar(lo, hi, out),
+    "c13_lunar" => c13_lunar(lo, hi, out),
     "c19_attributes" => c19_attributes(out),
     "c11_names" => c11_names(out),
     "c03_month_step" => c03_month_step(lo, hi, out),
@@ -633,4 +639,257 @@ fn c11_names(out: &mut Out) {
   names_of!(out, "TenStar", TenStar, 10); names_of!(out, "Ecliptic", Ecliptic, 2); names_of!(out, "TwelveStar", TwelveStar, 12); names_of!(out, "TwentyEightStar", TwentyEightStar, 28);
   names_of!(out, "LunarSeason", LunarSeason, 12);
   out.sample("41 cyclic types: from_name(from_index(i).get_name()).index == i for every i; unknown name refused".to_string());
+}
+
+
+pub fn abs_sec(t: &SolarTime) -> i64 { spec::jdn(t.get_year() as i64, t.get_month() as i64, t.get_day() as i64) * 86400 + spec::sod(t.get_hour() as i64, t.get_minute() as i64, t.get_second() as i64) }
+const SEC_MIN: i64 = 1721424 * 86400;
+const SEC_MAX: i64 = 5373485 * 86400 - 1;
+
+fn instants_of_year(y: i64, rng: &mut u64) -> Vec<SolarTime> {
+  let mut v = vec![];
+  let dates = dates_of_year(y);
+  let mut picks = vec![dates[0], dates[dates.len() - 1], dates[58 % dates.len()], dates[59 % dates.len()]];
+  if y == 1582 { picks.push((1582, 10, 4)); picks.push((1582, 10, 15)); }
+  for _ in 0..3 { picks.push(dates[(lcg(rng) as usize) % dates.len()]); }
+  for (yy, m, d) in picks {
+    for (h, mi, s) in [(0usize, 0usize, 0usize), (23, 59, 59), (12, 0, 0), (13, 1, 0), (0, 10, 0), ((lcg(rng) % 24) as usize, (lcg(rng) % 60) as usize, (lcg(rng) % 60) as usize)] {
+      v.push(SolarTime::from_ymd_hms(yy as isize, m as usize, d as usize, h, mi, s));
+    }
+  }
+  v
+}
+
+// C12: next(n) moves the absolute second by exactly n; subtract == difference; order == sign
+fn c12_step(lo: i64, hi: i64, seed: u64, out: &mut Out) {
+  let mut rng = seed ^ 0xabcdef ^ ((lo as u64) << 17);
+  let offs: [i64; 22] = [0, 1, -1, 59, -59, 60, -60, 3599, -3601, 3600, 86399, -86399, 86400, -86400, -84000, 31536000, -31536000, 1000000000, -1000000000, 864000, -864000, 7200];
+  for y in lo..=hi {
+    for t in instants_of_year(y, &mut rng) {
+      let a = abs_sec(&t);
+      let r1 = (lcg(&mut rng) % 2000000) as i64 - 1000000;
+      for n in offs.iter().cloned().chain([r1].into_iter()) {
+        if a + n < SEC_MIN || a + n > SEC_MAX { continue; }
+        out.evaluations += 1;
+        match guard(|| t.next(n as isize)) {
+          Some(r) => {
+            let b = abs_sec(&r);
+            if b != a + n { out.fail(format!("step:{}:{}", t, n), format!("-> {} ({} s instead of {})", r, b - a, n)); continue; }
+            if r.subtract(t) as i64 != n || t.subtract(r) as i64 != -n { out.fail(format!("subtract:{}:{}", t, n), format!("{}", r.subtract(t))); }
+            if r.is_after(t) != (n > 0) || r.is_before(t) != (n < 0) || t.is_before(r) != (n > 0) { out.fail(format!("order:{}:{}", t, n), "before/after".into()); }
+          }
+          None => out.fail(format!("step:{}:{}", t, n), "panic".into()),
+        }
+      }
+    }
+    if y == lo { out.sample(format!("year {}: 42+ instants x 23 offsets", y)); }
+  }
+}
+
+// C12: instant -> Julian date -> instant, rounding-critical seconds on month/year ends and random days
+fn c12_roundtrip(lo: i64, hi: i64, seed: u64, out: &mut Out) {
+  let mut rng = seed ^ 0x1234567 ^ ((lo as u64) << 13);
+  for y in lo..=hi {
+    let dates = dates_of_year(y);
+    let mut picks: Vec<(i64, i64, i64)> = vec![];
+    for m in 1..=12 { picks.push((y, m, 1)); let l = if y == 1582 && m == 10 { 31 } else { spec::std_len(y, m) }; picks.push((y, m, l)); }
+    if y == 1582 { picks.push((1582, 10, 4)); picks.push((1582, 10, 15)); }
+    for _ in 0..4 { picks.push(dates[(lcg(&mut rng) as usize) % dates.len()]); }
+    for (yy, m, d) in picks {
+      let mut secs: Vec<i64> = vec![0, 1, 59, 60, 3599, 3600, 43199, 43200, 43201, 86398, 86399, 86340, 82800];
+      for _ in 0..40 { secs.push((lcg(&mut rng) % 86400) as i64); }
+      for sd in secs {
+        out.evaluations += 1;
+        let t = SolarTime::from_ymd_hms(yy as isize, m as usize, d as usize, (sd / 3600) as usize, ((sd / 60) % 60) as usize, (sd % 60) as usize);
+        match guard(|| t.get_julian_day().get_solar_time()) {
+          Some(r) => if r != t { out.fail(format!("jdrt:{}", t), format!("-> {}", r)); },
+          None => out.fail(format!("jdrt:{}", t), "panic".into()),
+        }
+      }
+    }
+    if y == lo { out.sample(format!("year {}: 24+ month ends x 53 seconds of day", y)); }
+  }
+}
+
+// C12: fractional Julian dates around every rounding / carry boundary -> valid instant within half a second
+fn c12_fraction(lo: i64, hi: i64, seed: u64, out: &mut Out) {
+  let mut rng = seed ^ 0x777 ^ ((lo as u64) << 11);
+  for y in lo..=hi {
+    let dates = dates_of_year(y);
+    let mut picks: Vec<(i64, i64, i64)> = vec![dates[0], dates[dates.len() - 1]];
+    for m in 1..=12 { let l = if y == 1582 && m == 10 { 31 } else { spec::std_len(y, m) }; picks.push((y, m, l)); }
+    if y == 1582 { picks.push((1582, 10, 4)); }
+    picks.push(dates[(lcg(&mut rng) as usize) % dates.len()]);
+    for (yy, m, d) in picks {
+      let n = spec::jdn(yy, m, d);
+      // seconds-of-day boundaries: end of day, end of an hour, end of a minute, noon
+      for base in [86400i64, 3600 * ((lcg(&mut rng) % 24) as i64 + 1), 60 * ((lcg(&mut rng) % 1440) as i64 + 1), 43200] {
+        for k in -12i64..=12 {
+          let sec = base as f64 + (k as f64) / 16.0 - 0.5;     // around xx:59:59.5
+          let jd = (n as f64) - 0.5 + sec / 86400.0;
+          let want_abs = n as f64 * 86400.0 + sec;              // absolute seconds of the input
+          if want_abs + 0.5 > (SEC_MAX + 1) as f64 { continue; } // rounds into year 10000: outside the supported range
+          out.evaluations += 1;
+          match guard(|| JulianDay::from_julian_day(jd).get_solar_time()) {
+            Some(r) => {
+              let got = abs_sec(&r) as f64;
+              // half a second plus the f64 resolution of a Julian date (~4e-5 s at 5e6 days)
+              if (got - want_abs).abs() > 0.5 + 1e-4 { out.fail(format!("frac:{}-{}-{}:{}:{}", yy, m, d, base, k), format!("jd {} -> {} off by {} s", jd, r, got - want_abs)); }
+            }
+            None => out.fail(format!("frac:{}-{}-{}:{}:{}", yy, m, d, base, k), format!("jd {} panics", jd)),
+          }
+        }
+      }
+    }
+    if y == lo { out.sample(format!("year {}: 15+ dates x 4 boundaries x 25 sixteenths of a second", y)); }
+  }
+}
+
+// C13 (civil): day-of-year and year length agree with the month lists; every list entry exists
+fn c13_solar(lo: i64, hi: i64, out: &mut Out) {
+  for y in lo..=hi {
+    let sy = SolarYear::from_year(y as isize);
+    let mut doy = 0usize;
+    let months = sy.get_months();
+    if months.len() != 12 { out.fail(format!("months:{}", y), format!("{}", months.len())); }
+    for (mi, sm) in months.iter().enumerate() {
+      out.evaluations += 1;
+      let days = match guard(|| sm.get_days()) { Some(v) => v, None => { out.fail(format!("days:{}-{}", y, mi + 1), "panic".into()); continue; } };
+      if days.len() != sm.get_day_count() || days.len() as i64 != spec::month_len(y, mi as i64 + 1) { out.fail(format!("days:{}-{}", y, mi + 1), format!("{} listed, count {}", days.len(), sm.get_day_count())); }
+      let mut prev: Option<i64> = None;
+      for d in days.iter() {
+        if d.get_index_in_year() != doy { out.fail(format!("doy:{}", d), format!("index in year {} but list position {}", d.get_index_in_year(), doy)); }
+        let n = jdn_sd(d);
+        if let Some(p) = prev { if n != p + 1 { out.fail(format!("dayorder:{}", d), "not consecutive".into()); } }
+        prev = Some(n);
+        doy += 1;
+      }
+    }
+    if doy != sy.get_day_count() || doy as i64 != spec::year_len(y) { out.fail(format!("yearlen:{}", y), format!("{} days listed, count {}", doy, sy.get_day_count())); }
+    if y == lo { out.sample(format!("civil year {}: 12 month lists, {} days", y, doy)); }
+  }
+}
+
+// C13 (lunar / sexagenary): month -> days, day -> hours, sexagenary year -> months, month -> days
+fn c13_lunar(lo: i64, hi: i64, out: &mut Out) {
+  use tyme4rs::tyme::sixtycycle::{SixtyCycleYear, SixtyCycleDay};
+  for y in lo..=hi {
+    let y = y as isize;
+    for m in months_of(y) {
+      out.evaluations += 1;
+      let lm = LunarMonth::from_ym(y, m);
+      let first = lm.get_first_julian_day().get_day() as i64;
+      if first < 1721424 || first + 30 > 5373484 { continue; }
+      let days = match guard(|| lm.get_days()) { Some(v) => v, None => { out.fail(format!("ldays:{}:{}", y, m), "panic".into()); continue; } };
+      if days.len() != lm.get_day_count() { out.fail(format!("ldays:{}:{}", y, m), format!("{} listed, count {}", days.len(), lm.get_day_count())); continue; }
+      for (i, d) in days.iter().enumerate() {
+        if d.get_year() != y || d.get_month() != m || d.get_day() != i + 1 { out.fail(format!("ldays:{}:{}", y, m), format!("entry {} is {}", i, d)); break; }
+      }
+      // hours of the first, middle and last day
+      for &i in [0usize, days.len() / 2, days.len() - 1].iter() {
+        out.evaluations += 1;
+        let d = &days[i];
+        let hs = d.get_hours();
+        let want: Vec<usize> = vec![0, 1, 3, 5, 7, 9, 11, 13, 15, 17, 19, 21, 23];
+        let got: Vec<usize> = hs.iter().map(|h| h.get_hour()).collect();
+        if got != want || hs.iter().any(|h| h.get_lunar_day() != *d || h.get_minute() != 0 || h.get_second() != 0) { out.fail(format!("lhours:{}:{}:{}", y, m, i + 1), format!("{:?}", got)); }
+        // sexagenary day: 12 slots from 23:00 of the previous day in 7200 s steps
+        let sd = match guard(|| d.get_solar_day()) { Some(v) => v, None => continue };
+        if sd.get_year() < 2 { continue; }
+        match guard(|| SixtyCycleDay::from_solar_day(sd).get_hours()) {
+          Some(shs) => {
+            let base = (jdn_sd(&sd) - 1) * 86400 + 23 * 3600;
+            let ok = shs.len() == 12 && shs.iter().enumerate().all(|(k, h)| abs_sec(&h.get_solar_time()) == base + 7200 * k as i64 && h.get_index_in_day() == k);
+            if !ok { out.fail(format!("shours:{}", sd), format!("{} slots", shs.len())); }
+          }
+          None => out.fail(format!("shours:{}", sd), "panic".into()),
+        }
+      }
+    }
+    // sexagenary year -> months -> days (every 7th year: each month walks ~30 days)
+    if y >= 2 && y <= 9997 && y % 7 == 0 {
+      out.evaluations += 1;
+      let sy = SixtyCycleYear::from_year(y);
+      let ms = sy.get_months();
+      if ms.len() != 12 || ms.iter().enumerate().any(|(i, m)| m.get_index_in_year() != i || m.get_sixty_cycle_year().get_year() != y) { out.fail(format!("smonths:{}", y), format!("{}", ms.len())); }
+      for (i, sm) in ms.iter().enumerate() {
+        out.evaluations += 1;
+        // Jie day of this month and of the next
+        let k = (y as i64) * 24 + 3 + 2 * i as i64;
+        let td = |k: i64| jdn_sd(&SolarTerm::from_index(spec::ediv(k, 24) as isize, spec::emod(k, 24) as isize).get_julian_day().get_solar_day());
+        let (a, b) = (td(k), td(k + 2));
+        match guard(|| sm.get_days()) {
+          Some(ds) => {
+            let ok = ds.len() as i64 == b - a && ds.iter().enumerate().all(|(j, d)| jdn_sd(&d.get_solar_day()) == a + j as i64);
+            if !ok { out.fail(format!("sdays:{}:{}", y, i), format!("{} days listed, Jie days {}..{}", ds.len(), a, b)); }
+          }
+          None => out.fail(format!("sdays:{}:{}", y, i), "panic".into()),
+        }
+      }
+    }
+    if y as i64 == lo { out.sample(format!("lunar year {}: month day lists, 3 hour lists per month", y)); }
+  }
+}
+
+// C11: group laws for the object-heavy linear units, by execution (one anchor per year)
+fn c11_linear(lo: i64, hi: i64, seed: u64, out: &mut Out) {
+  use tyme4rs::tyme::sixtycycle::{SixtyCycleYear, SixtyCycleMonth, SixtyCycleDay, SixtyCycleHour};
+  use tyme4rs::tyme::festival::{SolarFestival, LunarFestival};
+  let mut rng = seed ^ 0x5151 ^ ((lo as u64) << 9);
+  for y in lo..=hi {
+    if y < 70 || y > 9930 { continue; }
+    let yi = y as isize;
+    let m = (lcg(&mut rng) % 12 + 1) as usize;
+    let d = (lcg(&mut rng) % 28 + 1) as usize;
+    let (a, b) = ((lcg(&mut rng) % 61) as isize - 30, (lcg(&mut rng) % 61) as isize - 30);
+    macro_rules! laws { ($tag:expr, $x:expr, $eq:expr) => {{
+      out.evaluations += 1;
+      let x = $x;
+      let r = guard(|| { let z = x.next(0); let ab = x.next(a).next(b); let s = x.next(a + b); let back = x.next(a).next(-a); ($eq(&z, &x), $eq(&ab, &s), $eq(&back, &x)) });
+      match r { Some((true, true, true)) => {}, Some(v) => out.fail(format!("group:{}:{}:{}:{}", $tag, y, a, b), format!("{:?}", v)), None => out.fail(format!("group:{}:{}:{}:{}", $tag, y, a, b), "panic".into()) }
+    }} }
+    let sd = SolarDay::from_ymd(yi, m, d);
+    laws!("SolarDay", sd, |p: &SolarDay, q: &SolarDay| p == q);
+    laws!("SolarWeek", sd.get_solar_week((lcg(&mut rng) % 7) as usize), |p: &SolarWeek, q: &SolarWeek| p.get_first_day() == q.get_first_day());
+    let ld = sd.get_lunar_day();
+    laws!("LunarDay", ld.clone(), |p: &LunarDay, q: &LunarDay| p == q);
+    laws!("LunarMonth", ld.get_lunar_month(), |p: &LunarMonth, q: &LunarMonth| p == q);
+    laws!("LunarYear", ld.get_lunar_month().get_lunar_year(), |p: &LunarYear, q: &LunarYear| p == q);
+    let lw = LunarWeek::from_ym(ld.get_year(), ld.get_month(), 0, (lcg(&mut rng) % 7) as usize);
+    laws!("LunarWeek", lw, |p: &LunarWeek, q: &LunarWeek| p.get_first_day() == q.get_first_day());
+    let lh = LunarHour::from_ymd_hms(ld.get_year(), ld.get_month(), ld.get_day(), (lcg(&mut rng) % 24) as usize, 5, 7);
+    laws!("LunarHour", lh.clone(), |p: &LunarHour, q: &LunarHour| p == q);
+    // a lunar hour moves by exactly n double-hours
+    out.evaluations += 1;
+    if let Some(r) = guard(|| lh.next(a)) { if abs_sec(&r.get_solar_time()) - abs_sec(&lh.get_solar_time()) != 7200 * a as i64 { out.fail(format!("unit:LunarHour:{}:{}", y, a), format!("{} -> {}", lh.get_solar_time(), r.get_solar_time())); } }
+    laws!("SixtyCycleYear", SixtyCycleYear::from_year(yi), |p: &SixtyCycleYear, q: &SixtyCycleYear| p == q);
+    let scm = SixtyCycleMonth::from_index(yi, (lcg(&mut rng) % 12) as isize);
+    laws!("SixtyCycleMonth", scm.clone(), |p: &SixtyCycleMonth, q: &SixtyCycleMonth| p == q && p.get_sixty_cycle_year() == q.get_sixty_cycle_year());
+    out.evaluations += 1;
+    if let Some(r) = guard(|| scm.next(a)) {
+      let o0 = scm.get_sixty_cycle_year().get_year() as i64 * 12 + scm.get_index_in_year() as i64;
+      let o1 = r.get_sixty_cycle_year().get_year() as i64 * 12 + r.get_index_in_year() as i64;
+      if o1 - o0 != a as i64 { out.fail(format!("unit:SixtyCycleMonth:{}:{}", y, a), format!("{} -> {}", scm, r)); }
+    }
+    laws!("SixtyCycleDay", SixtyCycleDay::from_solar_day(sd), |p: &SixtyCycleDay, q: &SixtyCycleDay| p == q && p.get_solar_day() == q.get_solar_day());
+    let st = SolarTime::from_ymd_hms(yi, m, d, (lcg(&mut rng) % 24) as usize, 30, 0);
+    laws!("SixtyCycleHour", SixtyCycleHour::from_solar_time(st), |p: &SixtyCycleHour, q: &SixtyCycleHour| p == q && p.get_solar_time() == q.get_solar_time());
+    laws!("SolarTime", st, |p: &SolarTime, q: &SolarTime| p == q);
+    laws!("SolarTerm", SolarTerm::from_index(yi, (lcg(&mut rng) % 24) as isize), |p: &SolarTerm, q: &SolarTerm| p.get_year() == q.get_year() && p.get_index() == q.get_index() && p.get_cursory_julian_day() == q.get_cursory_julian_day());
+    laws!("SolarMonth", sd.get_solar_month(), |p: &SolarMonth, q: &SolarMonth| p == q);
+    laws!("JulianDay", sd.get_julian_day(), |p: &JulianDay, q: &JulianDay| p == q);
+    // festivals: Option-valued stepping
+    out.evaluations += 1;
+    if y >= 1990 {
+      let f = SolarFestival::from_index(yi, (lcg(&mut rng) % 10) as usize);
+      if let Some(f) = f {
+        let r = guard(|| (f.next(a).and_then(|x| x.next(b)), f.next(a + b)));
+        match r { Some((Some(p), Some(q))) => if p != q { out.fail(format!("group:SolarFestival:{}:{}:{}", y, a, b), format!("{} vs {}", p, q)); }, _ => {} }
+      }
+    }
+    let lf = LunarFestival::from_index(yi, (lcg(&mut rng) % 13) as usize).unwrap();
+    let r = guard(|| (lf.next(a).and_then(|x| x.next(b)), lf.next(a + b), lf.next(0)));
+    match r { Some((Some(p), Some(q), Some(z))) => if p != q || z != lf { out.fail(format!("group:LunarFestival:{}:{}:{}", y, a, b), format!("{} vs {}", p, q)); }, Some(_) => out.fail(format!("group:LunarFestival:{}:{}:{}", y, a, b), "None".into()), None => out.fail(format!("group:LunarFestival:{}:{}:{}", y, a, b), "panic".into()) }
+    if y == lo { out.sample(format!("year {}: 18 linear units, steps a={} b={}", y, a, b)); }
+  }
 }
